@@ -250,6 +250,11 @@ OPS = [
   # ---- placeholders
   ("unresolvable_placeholder", "*", in_any_section(lambda v, rng: " ".join(v.split()[:-1] + ["${missing}"]))),
   ("unresolvable_cross_reference", "*", in_any_section(lambda v, rng: " ".join(v.split()[:-1] + ["${Species:Nope.mass}"]))),
+  ("cross_reference_to_missing_section", "*", in_any_section(lambda v, rng: " ".join(v.split()[:-1] + ["${NoSuchSection:key}"]))),
+  ("cross_reference_to_undefined_variable", "*", in_any_section(lambda v, rng: " ".join(v.split()[:-1] + ["${Variables:undefined_name}"]))),
+  ("placeholder_with_two_colons", "*", in_any_section(lambda v, rng: " ".join(v.split()[:-1] + ["${a:b:c}"]))),
+  ("self_referencing_variable", "*", lambda it, info, rng: (it.insert(0, ["Variables", [["A", "${A}"]]]), in_any_section(lambda v, r2: " ".join(v.split()[:-1] + ["${A}"]))(it, info, rng))[1]),
+  ("mutually_recursive_variables", "*", lambda it, info, rng: (it.insert(0, ["Variables", [["A", "${B}"], ["B", "${A}"]]]), in_any_section(lambda v, r2: " ".join(v.split()[:-1] + ["${A}"]))(it, info, rng))[1]),
   ("bad_placeholder_syntax", "*", in_any_section(lambda v, rng: " ".join(v.split()[:-1] + ["${unterminated"]))),
   ("bare_dollar", "*", in_any_section(lambda v, rng: " ".join(v.split()[:-1] + ["$5"]))),
   ("placeholder_in_tabulation_unresolvable", "*", lambda it, info, rng: set_tab(it, "cutoff", "${rcut}")),
